@@ -5,7 +5,7 @@ PLAN = {
     'C02': dict(level='proof', engines=['tasknative']),
     'C03': dict(level='proof', engines=['bundles', 'multipitchnative']),
     'C04': dict(level='proof', engines=['keynative', 'matchnative', 'tasknative', 'multipitchnative', 'libconf']),
-    'C05': dict(level='other', engines=['matchnative', 'multipitchnative'],
+    'C05': dict(level='other', engines=['matchnative', 'bundles', 'multipitchnative'],
                 explanation='The property is about the matcher bodies (Hopcroft-Karp, hit-window search, note-matching matrices); these are checked by exhaustive '
                             'small-scope enumeration against brute-force maximum matching (bounded stand-in, the property\'s own quantifier: all graphs up to 4x5) and are '
                             'NOT counted as proved. Discharged deductively: the circular-distance tolerance predicate, and - in the evidence of C01/C04/C06/C07/C08 - every '
@@ -21,7 +21,7 @@ PLAN = {
     'C14': dict(level='proof', engines=['tasknative', 'keynative', 'libconf']),
     'C16': dict(level='proof', engines=['forward', 'segnative']),
     'C17': dict(level='proof', engines=['hiernative', 'bundles']),
-    'C18': dict(level='proof', engines=['sumlib', 'multipitchnative', 'matchnative']),
+    'C18': dict(level='proof', engines=['sumlib', 'bundles', 'multipitchnative', 'matchnative']),
     'C19': dict(level='proof', engines=['sepstruct', 'bundles']),
     'C20': dict(level='proof', engines=['ionative']),
     'C15': dict(level='proof', engines=['frames', 'sepstruct'], assumptions=['A3', 'A4', 'A5', 'A6', 'A7']),
